@@ -30,10 +30,11 @@ FAULTS = {'ValueError': InjectedFault, 'StopIteration': StopIteration, 'ZeroDivi
 
 
 class Shared(object):
-    def __init__(self, fail_at, exc=InjectedFault):
+    def __init__(self, fail_at, exc=InjectedFault, ret=None):
         self.count = 0
         self.fail_at = fail_at
         self.exc = exc
+        self.ret = ret       # not None: the failing evaluation RETURNS this unprintable value instead of raising (the writer fails when it formats it)
 
 
 class Proxy(object):
@@ -43,6 +44,8 @@ class Proxy(object):
     def __call__(self, r):
         self.shared.count += 1
         if self.shared.count == self.shared.fail_at:
+            if self.shared.ret is not None:
+                return self.shared.ret
             raise self.shared.exc('injected failure at evaluation %d' % self.shared.count)
         return self.f(r)
 
@@ -95,14 +98,52 @@ def make_objects(target, shared, n):
     return tab.write, binary
 
 
-def api_run(target, k, n, exc=InjectedFault, big=False):
+class WriteOnly(object):
+    """a sink that offers write() and nothing else (a pipe, a socket file, a logging wrapper)"""
+    def __init__(self):
+        self.parts = []
+
+    def write(self, s):
+        self.parts.append(s)
+        return len(s)
+
+    def getvalue(self):
+        return ''.join(self.parts)
+
+
+class GzipSink(object):
+    """gzip.open(path, 'wt'): reports seekable() but cannot seek backwards or truncate while writing"""
+    def __init__(self):
+        import gzip
+        self.path = tempfile.mktemp(dir=R.scratch(), suffix='.gz')
+        self.fp = gzip.open(self.path, 'wt')
+
+    def getvalue(self):
+        import gzip
+        try:
+            self.fp.close()
+        except Exception:  # noqa
+            pass
+        with gzip.open(self.path, 'rt') as f:
+            data = f.read()
+        os.remove(self.path)
+        return data
+
+
+def api_run(target, k, n, exc=InjectedFault, big=False, ret=None, sink_kind=None):
     """-> (raised?, bytes in sink, evaluations, second-write outcome)"""
-    shared = Shared(k, exc)
+    shared = Shared(k, exc, ret)
     write, binary = (make_big if big else make_objects)(target, shared, n)
     sink = io.BytesIO() if binary else io.StringIO()
+    if sink_kind == 'writeonly':
+        sink = WriteOnly()
+    elif sink_kind == 'gzip':
+        sink = GzipSink()
+    if ret is not None:
+        exc = Exception
     raised = False
     try:
-        write(sink)
+        write(sink.fp if sink_kind == 'gzip' else sink)
     except exc:
         raised = True
     first = sink.getvalue()
@@ -173,7 +214,7 @@ def potable_slots(target):
     return slots
 
 
-def potable_ini(target, bad_slot, row, n):
+def potable_ini(target, bad_slot, row, n, mode='sqrt'):
     nr = 4 * (n - 2) if target == 'DLPOLY' else n
     cutoff, crho = 2.0, 6.0
     dr, drho = cutoff / (nr - 1), crho / (n - 1)
@@ -187,7 +228,11 @@ def potable_ini(target, bad_slot, row, n):
             step = drho if sec == 'EAM-Embed' else dr
             start = 1 if target in ('LAMMPS', 'DLPOLY') and sec == 'Pair' else 0     # these tables start at r = dr
             xfail = (start + row - 0.5) * step
-            sections.setdefault(sec, []).append('%s : >=0 bad %s' % (key, X.num(xfail)))
+            if mode == 'pow':
+                # negative base ** 1.5 is a complex number in Python: nothing raises until the writer formats the value
+                sections.setdefault(sec, []).append('%s : >=0 sum(as.constant 1.0, pow(as.polynomial %s -1.0, as.constant 1.5))' % (key, X.num(xfail)))
+            else:
+                sections.setdefault(sec, []).append('%s : >=0 bad %s' % (key, X.num(xfail)))
         else:
             sections.setdefault(sec, []).append('%s : >=0 as.polynomial %s 0.5 0.25' % (key, X.num(1.0 + 0.1 * len(sections.get(sec, [])))))
     for sec in ('Pair', 'EAM-Embed', 'EAM-Density', 'EAM-ADP-Dipole', 'EAM-ADP-Quadrupole'):
@@ -211,6 +256,8 @@ def cases(tier):
                 rows = n if slot[0] == 'EAM-Embed' else (nr - 1 if tgt == 'LAMMPS' and slot[0] == 'Pair' else nr)
                 for row in range(rows):
                     out.append(dict(route='potable', target=tgt, slot=list(slot), row=row, n=n))
+                    if tier != 'quick' or row in (0, 1, rows - 1):
+                        out.append(dict(route='potable', target=tgt, slot=list(slot), row=row, n=n, mode='pow'))
             out.append(dict(route='potable', target=tgt, slot=None, row=0, n=n))       # control: fault-free run writes a table
     # other exception classes a model callable may raise (StopIteration is swallowed by map()/generators if the writer uses them)
     for tgt in API_TARGETS:
@@ -221,6 +268,19 @@ def cases(tier):
             for k in sorted(set([1, 2, N // 2, N - 1, N])):
                 if name != 'ValueError':
                     out.append(dict(route='api', target=tgt, k=k, n=4, N=N, exc=name))
+    # evaluations that RETURN something unprintable (a complex number, as negative**fractional does) at k: the failure happens while formatting
+    for tgt in API_TARGETS:
+        N, _ref = count_evals(tgt, 4)
+        for k in range(1, N + 1):
+            out.append(dict(route='api', target=tgt, k=k, n=4, N=N, ret='complex'))
+    # other kinds of sink for the text targets: write-only objects and gzip text streams
+    for tgt in API_TARGETS:
+        if tgt.startswith('excel'):
+            continue
+        N, _ref = count_evals(tgt, 4)
+        for kind in ('writeonly', 'gzip'):
+            for k in sorted(set([0, 1, 2, N // 3, N // 2, N - 1, N])):
+                out.append(dict(route='api', target=tgt, k=k, n=4, N=N, sink=kind))
     # tables of several MiB: failures late in the write (after megabytes of text have been produced)
     for tgt in BIG_TARGETS:
         for frac in ((0.999,) if tier == 'quick' else (0.5, 0.9, 0.999)):
@@ -243,7 +303,14 @@ def run_api(case):
         V(viol, 'nondeterministic-evaluation-count', '%s: %d evaluations now, %d when the case list was built' % (tgt, N, case['N']))
         return viol
     exc = FAULTS[case.get('exc', 'ValueError')]
-    raised, first, cnt, second = api_run(tgt, k, n, exc)
+    ret = complex(1.0, 1.0) if case.get('ret') == 'complex' else None
+    raised, first, cnt, second = api_run(tgt, k, n, exc, ret=ret, sink_kind=case.get('sink'))
+    if k == 0:
+        if raised or first != ref:
+            V(viol, 'sink-kind-changes-output:%s' % tgt, '%s written to a %s sink: %s, %d bytes; to a StringIO %d bytes' % (tgt, case.get('sink'), 'raised' if raised else 'returned', len(first), len(ref)))
+        return viol
+    if ret is not None and not raised:
+        return viol        # the writer printed the value somehow: not a failed tabulation
     if raised:
         if len(first):
             V(viol, 'partial-output:%s' % tgt, '%s: evaluation %d of %d failed and write() raised, but %d bytes had already been written to the file object'
@@ -273,8 +340,10 @@ def xlsx_equal(a, b):
 def run_potable(case):
     viol = []
     tgt = case['target']
-    ini = potable_ini(tgt, case['slot'], case['row'], case['n'])
+    ini = potable_ini(tgt, case['slot'], case['row'], case['n'], case.get('mode', 'sqrt'))
     res = R.potable(ini, binary=tgt.startswith('excel'))
+    if case.get('mode') == 'pow' and res.status == 0:
+        return viol      # the target printed the complex value somehow: not a failed tabulation
     if case['slot'] is None:
         if res.status != 0 or not res.out_bytes:
             V(viol, 'control-run-failed', '%s: the fault-free model was not tabulated (status %r, %s)' % (tgt, res.status, res.exc or res.stderr[-200:]))
